@@ -1401,6 +1401,7 @@ func refPool() []refStep {
 		{text: "[1,0]", sel: refConcat(refIndex(1), refIndex(0))}, {text: "[0,0]", sel: refConcat(refIndex(0), refIndex(0))}, {text: "[0,1:3]", sel: refConcat(refIndex(0), refSlice(ip(1), ip(3), 1))}, {text: "[0,0,1,1,0]", sel: refConcat(refIndex(0), refIndex(0), refIndex(1), refIndex(1), refIndex(0))},
 		{text: "[?(@.a)]", sel: refFilter(hasKey("a"))}, {text: "[?(@.b == 2)]", sel: refFilter(cmp("b", func(x float64) bool { return x == 2 }))}, {text: "[?(@.a > 1)]", sel: refFilter(cmp("a", func(x float64) bool { return x > 1 }))},
 		{text: "[?(!@.a)]", sel: refFilter(func(m interface{}) bool { return !hasKey("a")(m) })},
+		{text: "[-3::2]", sel: refSlice(ip(-3), nil, 2)},
 	}
 	// recursive descent before each bracket form and a name
 	for _, st := range []refStep{pool[0], pool[3], pool[5], pool[7], pool[10], pool[14], pool[17]} {
